@@ -90,6 +90,21 @@ def tempo_lists(tier, seed):
                         ch = [(bs[0], m, 0, F(0))] + [(bs[i + 1], m, int(pos[i] // m), pos[i] % m) for i in range(n - 1)]
                         out.append(("B", INITS[idx % 3], ch))
                         idx += 1
+    # (C) extreme tempos meeting ordinary ones ("any positive bpm"): a beat of 1 ms next to a beat of 500 ms or of 2 minutes
+    XB = [F(60000), F(120), F(1, 2), F(1000)]
+    for m in (4, 3):
+        for pos in (F(1, 4), F(4), F(13, 2), F(97, 48)):
+            for b0, b1 in itertools.permutations(XB, 2):
+                out.append(("B", INITS[idx % 3], [(b0, m, 0, F(0)), (b1, m, int(pos // m), pos % m)]))
+                idx += 1
+        for b0, b1, b2 in ((XB[1], XB[0], XB[3]), (XB[0], XB[1], XB[0]), (XB[3], XB[2], XB[0])):
+            for p1, p2 in ((F(2), F(13, 2)), (F(1, 4), F(4))):
+                out.append(("B", INITS[idx % 3], [(b0, m, 0, F(0)), (b1, m, int(p1 // m), p1 % m), (b2, m, int(p2 // m), p2 % m)]))
+                idx += 1
+    for b0, b1 in itertools.permutations(XB, 2):
+        for m0, m1 in ((4, 3), (7, 4)):
+            out.append(("A", INITS[idx % 3], [(b0, m0, 0, F(0)), (b1, m1, 2, F(0))]))
+            idx += 1
     if tier == "thorough":
         # every list also with the two other initial offsets for the single- and two-change lists
         extra = [(k, i2, ch) for (k, i, ch) in out if len(ch) <= 2 for i2 in INITS if i2 != i]
@@ -264,6 +279,11 @@ def check_tempo_list(kind, init, ch, qlen, ctx, only_query=None):
             t = ts[k] + fr * blen
             if t < seg_end:
                 offgrid.append((float(t), k))
+        # a hair before the next change: still this segment's tempo
+        if k + 1 < n:
+            for d in (F(8, 100), F(1, 100)):
+                if ts[k + 1] - d > ts[k] and float(ts[k + 1] - d) < float(ts[k + 1]):
+                    offgrid.append((float(ts[k + 1] - d), k))
     if offgrid:
         times = [t for t, _ in offgrid]
         for order in (times, times[::-1]):
